@@ -1,1 +1,21 @@
-From Morph Require Import Base.UStr.
+(* Recorded finding of C07 (self-join elimination), as a checked fact: on this document and table the faithful Engine model
+   and the Spec join give different statements (a non-unique key loses the cross matches, a NULL key links to itself). *)
+From Coq Require Import String.
+From Morph Require Import Base.UStr Gen.Tables Model.Terms Model.Data Model.Engine Model.Mapping Model.Spec Model.Wire Model.Run.
+Local Open Scope N_scope.
+Definition sj_tm (k : mkind) (v : string) : tmap := mk_tmap k (u v) CkIri None.
+Definition sj_doc : document :=
+  [ {| t_id := u "TM0"; t_src := u "S0"; t_nonasserted := false; t_subj := sj_tm KTempl "http://ex.org/r/{id}"; t_sjoins := []; t_classes := []; t_sgraphs := [];
+       t_poms := [ {| p_preds := [sj_tm KConst "http://ex.org/p"];
+                      p_objs := [ {| o_tm := sj_tm KParent "TM1"; o_lang := None; o_dt := None; o_joins := [(u "name", u "name")] |} ]; p_graphs := [] |} ] |};
+    {| t_id := u "TM1"; t_src := u "S0"; t_nonasserted := false; t_subj := sj_tm KTempl "http://ex.org/s/{id}"; t_sjoins := []; t_classes := []; t_sgraphs := [];
+       t_poms := [ {| p_preds := [sj_tm KConst "http://ex.org/q"]; p_objs := [ {| o_tm := sj_tm KRef "id"; o_lang := None; o_dt := None; o_joins := [] |} ]; p_graphs := [] |} ] |} ].
+Definition sj_src : list source :=
+  [ {| src_key := u "S0"; src_kind := SCsv; src_table := {| t_cols := [u "id"; u "name"]; t_rows := [[VStr (u "1"); VStr (u "a")]; [VStr (u "2"); VStr (u "a")]] |} |} ].
+Definition sj_cfg : ccfg := {| cc_nquads := false; cc_printable := false; cc_safe := []; cc_na := [[]; u "nan"] |}.
+Lemma selfjoin_elim_refuted :
+  match engine_lines sj_cfg sj_src sj_doc [] with
+  | Ok l => negb (forallb (fun x => mem x l) (spec_case_lines sj_cfg sj_src sj_doc []))
+  | Err _ => false
+  end = true.
+Proof. vm_compute. reflexivity. Qed.
